@@ -45,7 +45,7 @@ AddEntry == /\ phase = "pick" /\ Len(table) < MaxEntries /\ Len(pol.rules) = 0
 Receive == /\ phase = "pick" /\ Len(table) >= 1
            /\ \E p \in Pkts :
                 /\ pkt' = p
-                /\ IF p.frag # 0 THEN phase' = "done" /\ ret' = 0
+                /\ IF p.fam = 4 /\ p.frag # 0 THEN phase' = "done" /\ ret' = 0
                    ELSE phase' = "loop" /\ ret' = 0
            /\ i' = 1 /\ highestMask' = 0 /\ UNCHANGED <<table, pol>>
 
@@ -75,7 +75,7 @@ NeverLessSpecific ==
         /\ \A k \in 1..Len(table) : PContains(table[k].p, pkt.fam, pkt.dst, W) => table[k].p.len <= table[e].p.len
         /\ table[e].cls[ret % 10].sess = 1 /\ ClassEval(table[e].cls[ret % 10].m, pkt)
         /\ \A j \in 1..((ret % 10) - 1) : ~ClassEval(table[e].cls[j].m, pkt)
-        /\ pkt.frag = 0
+        /\ (pkt.fam = 4 => pkt.frag = 0)
 
 BackwardIsFirstMatch ==
     phase = "pol" =>
@@ -111,7 +111,7 @@ McPrefixes == {Pfx(4, 0, 0), Pfx(4, 0, 1), Pfx(4, 4, 2), Pfx(4, 5, 4), Pfx(6, 0,
 McClassLists == {<<Cl("true", 1)>>, <<Cl("tos", 0), Cl("true", 1)>>, <<Cl("tos", 1)>>}
 McClassListsQuick == {<<Cl("tos", 0), Cl("true", 1)>>, <<Cl("tos", 1)>>}
 McPkts == {P(4, d, t, f) : d \in {0, 4, 5, 7, 9, 15}, t \in {0, 184}, f \in {0}} \cup
-          {P(4, 5, 0, 1), P(4, 5, 184, 2), P(6, 5, 0, 0), P(6, 9, 184, 0), P(4, 0 - 1, 0, 0), P(6, 0 - 1, 184, 0)}
+          {P(4, 5, 0, 1), P(4, 5, 184, 2), P(6, 5, 0, 0), P(6, 9, 184, 0), P(4, 0 - 1, 0, 0), P(6, 0 - 1, 184, 0), P(6, 5, 0, 3), P(6, 9, 0, 4)}
 AnyIA == IAM(0, 0, 0)
 McRules == {Rule(a, f, AnyIA, n[1], n[2]) : a \in {"accept", "reject", "advertise"},
                                              f \in {AnyIA, IAM(1, 1, 1)},
